@@ -126,7 +126,25 @@ func PerturbHost(r *hx.Rand, h string) string {
 	if h == "" {
 		return hx.Pick(r, []string{"", "a", "a.b", "example.com", "x.y.z"})
 	}
-	switch r.Intn(16) {
+	switch r.Intn(20) {
+	case 15: // empty label: leading dot
+		return "." + h
+	case 16, 17: // empty label in the middle: double a dot, or blank out one label
+		if i := strings.IndexByte(h, '.'); i >= 0 {
+			if r.Bool() {
+				return h[:i] + "." + h[i:]
+			}
+			j := strings.IndexByte(h[i+1:], '.')
+			if j < 0 {
+				return h[:i+1]
+			}
+			return h[:i+1] + h[i+1+j:]
+		}
+		return "." + h
+	case 18:
+		if i := strings.IndexByte(h, '.'); i >= 0 {
+			return h[i:]
+		}
 	case 10:
 		return h + ":"
 	case 11:
@@ -266,4 +284,46 @@ func sortStrings(a []string) {
 			a[j], a[j-1] = a[j-1], a[j]
 		}
 	}
+}
+
+// OverlapSet builds a family of patterns that all match long prefixes of one
+// target path (static segment, positional parameter {pI}, mid-segment parameter,
+// a wrong static, or a catch-all), so that a lookup of the target needs nested
+// backtracking with parameters captured before each backtrack.
+func OverlapSet(r *hx.Rand, n int) (pats []string, target string) {
+	depth := r.Range(3, 6)
+	segs := make([]string, depth)
+	for i := range segs {
+		segs[i] = hx.Pick(r, []string{"a", "b", "ab", "c", "abc", "1"})
+		target += "/" + segs[i]
+	}
+	for k := 0; k < n; k++ {
+		var sb strings.Builder
+		for i := 0; i < depth; i++ {
+			sb.WriteByte('/')
+			switch x := r.Intn(100); {
+			case x < 36:
+				sb.WriteString(segs[i])
+			case x < 66:
+				sb.WriteString("{p" + string(rune('0'+i)) + "}")
+			case x < 74 && len(segs[i]) > 1:
+				sb.WriteString(segs[i][:1] + "{q" + string(rune('0'+i)) + "}")
+			case x < 80:
+				sb.WriteString(hx.Pick(r, []string{"x", "y", "zz"}))
+			case x < 86:
+				sb.WriteString("*{w" + string(rune('0'+i)) + "}")
+				if r.Pct(60) {
+					i = depth
+				}
+			default:
+				sb.WriteString(segs[i])
+				i = depth // shorter pattern: ends here
+			}
+		}
+		if r.Pct(10) {
+			sb.WriteByte('/')
+		}
+		pats = append(pats, sb.String())
+	}
+	return
 }
